@@ -161,3 +161,31 @@ Example C07_example :
   plookup_root S_ex [77] m_ex [PField 6; PIntKey (-1)] = LFound LSingular (TScalar 2) 6 (VScalar 2 1065353216) /\
   node_raw LSingular 6 (VScalar 2 1065353216) = [0; 0; 128; 63].
 Proof. vm_compute. repeat split. Qed.
+
+(* ================================================================== (G) kind tables from the Go source *)
+(* the wire-type / packedness tables the read model uses are the ones of proto/type.go and proto/descriptor.go, translated from the Go
+   text on every build (gen/Gen_proto.v, gen/Gen_protokind.v).  model_kind k: k is one of the 17 kinds the models cover. *)
+From DG Require Gen_proto Gen_protokind Check20g GenProtokindProofs.
+
+Theorem C07_wt_of_kind_from_source :
+  forall k, Check20g.model_kind k = true ->
+  Gen_protokind.Kind2Wire k = wt_of_kind k /\ Gen_proto.Kind2Wire k = wt_of_kind k /\
+  Gen_protokind.TypeDescriptor_WireType {| Gen_protokind.TypeDescriptor_WireType_f_typ := k |} = Some (wt_of_kind k).
+Proof.
+  intros k H. destruct (GenProtokindProofs.Kind2Wire_is_wt_of_kind k H) as [A B]. split; [exact A|]. split; [exact B|].
+  exact (proj1 GenProtokindProofs.TypeDescriptor_WireType_spec k H).
+Qed.
+Print Assumptions C07_wt_of_kind_from_source.
+
+Theorem C07_is_numeric_from_source :
+  forall k, Check20g.model_kind k = true -> Gen_protokind.Type_IsPacked k = Some (is_numeric k).
+Proof. intros k H. exact (proj1 (GenProtokindProofs.Type_IsPacked_is_numeric k H)). Qed.
+Print Assumptions C07_is_numeric_from_source.
+
+(* a map descriptor is length-delimited, a list descriptor has no wire type of its own (TypeToKind panics) *)
+Theorem C07_container_wire_types_from_source :
+  Gen_protokind.TypeDescriptor_WireType {| Gen_protokind.TypeDescriptor_WireType_f_typ := 20 |} = Some 2 /\
+  Gen_protokind.TypeDescriptor_WireType {| Gen_protokind.TypeDescriptor_WireType_f_typ := 19 |} = None /\
+  (forall k, Check20g.model_kind k = true -> Gen_protokind.Type_TypeToKind k = Some k).
+Proof. split; [reflexivity|]. split; [reflexivity|]. exact (proj1 GenProtokindProofs.Type_TypeToKind_spec). Qed.
+Print Assumptions C07_container_wire_types_from_source.
